@@ -44,6 +44,41 @@ def canon(d):
     return c
 
 
+def explicit_route_check(d, dd, pt, m_ref):
+    """the same process set entered as explicit ODE equations: one ODE Transition per (process, touched state), written from
+    the definition's strings (never from pygom's output); -> None or a description of the difference"""
+    import pg, sympy
+    S = d["states"]
+    odes = []
+    for e in d["events"]:
+        for tr in e["trans"]:
+            if tr["ty"] in ("T", "D"):
+                odes.append(pg.Transition(origin=S[tr["o"]], equation="-(%s)*(%s)" % (tr["mag"], e["rate"]), transition_type="ODE"))
+            if tr["ty"] in ("T", "B"):
+                odes.append(pg.Transition(origin=S[tr["d"]], equation="(%s)*(%s)" % (tr["mag"], e["rate"]), transition_type="ODE"))
+    for o in d["odes"]:
+        odes.append(pg.Transition(origin=S[o["state"]], equation=o["eqn"], transition_type="ODE"))
+    kw = dict(state=mg.decl_states(dd), param=list(d["params"]), ode=odes)
+    if d["derived"]:
+        kw["derived_param"] = [(k, v) for k, v in d["derived"]]
+    try:
+        m = pg.model(**kw)
+        a, b = m.get_ode_eqn(), m_ref.get_ode_eqn()
+        for i in range(len(S)):
+            if sympy.simplify(a[i] - b[i]) != 0:
+                return "ode[%d] differs: explicit-ODE route %s, Event route %s" % (i, a[i], b[i])
+        vals = {p: float(pt[p]) for p in d["params"]}
+        m.parameters = vals; m_ref.parameters = vals
+        x = np.array([float(pt[s]) for s in S]); t = float(pt["t"])
+        fa, fb = np.asarray(m.ode(x, t), float), np.asarray(m_ref.ode(x, t), float)
+        ja, jb = np.asarray(m.jacobian(x, t), float), np.asarray(m_ref.jacobian(x, t), float)
+        if not (np.allclose(fa, fb, rtol=1e-11, atol=1e-11) and np.allclose(ja, jb, rtol=1e-10, atol=1e-10)):
+            return "ode/jacobian of the explicit-ODE route differ from the Event route at %s: %s vs %s" % (x.tolist(), fa.tolist(), fb.tolist())
+    except Exception as e:          # noqa: BLE001
+        return "explicit-ODE route cannot be built / evaluated: %s: %s" % (type(e).__name__, str(e)[:200])
+    return None
+
+
 def variants(d, rng):
     nproc = len(d["events"]) + len(d["odes"])
     out = []
@@ -88,6 +123,12 @@ def run(ck):
         if not built:
             continue
         ref = built[0]
+        if ref[0] == "event" and k % 2 == 0:
+            dd = dict(d, decl=["list", "comma", "space"][k % 3])
+            dist["explicit"] += 1
+            bad = explicit_route_check(d, dd, pt, ref[2])
+            if bad:
+                ck.violation("explicit-ode-route-differs", bad, dict(definition=d, route="explicit", decl=dd["decl"], seed=k))
         x = np.array([float(pt[s]) for s in d["states"]]); t = float(pt["t"])
         for b in built:
             b[2].parameters = {p: float(pt[p]) for p in d["params"]}
@@ -144,8 +185,13 @@ def replay(ck, data):
     pt = mg.random_point(rng, d)
     m0, _ = mg.build(d, route="event")
     dd = dict(d, decl=inp.get("decl", "list"))
-    m1, _ = mg.build(dd, route=inp["route"], rng=np.random.default_rng(inp.get("seed", 0)), order=inp.get("order"))
-    p0, p1 = c01.pyg_values(m0, readback(m0, d), pt), c01.pyg_values(m1, readback(m1, d), pt)
+    if inp["route"] == "explicit":
+        return explicit_route_check(d, dd, pt, m0)
+    try:
+        m1, _ = mg.build(dd, route=inp["route"], rng=np.random.default_rng(inp.get("seed", 0)), order=inp.get("order"))
+        p0, p1 = c01.pyg_values(m0, readback(m0, d), pt), c01.pyg_values(m1, readback(m1, d), pt)
+    except Exception as e:          # noqa: BLE001
+        return "route %s cannot be built / evaluated: %s: %s" % (inp["route"], type(e).__name__, str(e)[:200])
     for i in range(len(d["states"])):
         if not c01.close(p1["ode"][i], p0["ode"][i], p0["exact"] and p1["exact"]):
             return "ode[%d] differs between routes: %s vs %s" % (i, p1["ode"][i], p0["ode"][i])
